@@ -43,13 +43,12 @@ from ..core import Ctx, ExtractError, load_corpus
 
 ID = "C10"
 LEVEL = "proof"
-STRENGTH = "partial"   # the idle clause counted from the receipt of a change is proved only under a guard (open finding C10-F2)
+STRENGTH = "full"      # every clause has an unguarded theorem (C10-F1, C10-F2 are fixed; their witnesses are regressions)
 ENGINES = ["lean-model", "pyextract", "kopfsim"]
 LEVEL_TEXT = (
-    "PARTIAL by DESIGN §8's definition: the idle clause counted from the RECEIPT of a change is proved only under the guard "
-    "NoRunDuringProcessing (idle_law_partial); unguarded it is false of the code: idle_recv_clause_false_witness + open "
-    "finding C10-F2 (idle_reset_time is stamped only after the on.event handlers of the cycle; witness replayed in every run). "
-    "Everything else is unguarded: Lean theorems about a state-carrying model of the _timer loop (the in-memory handler state "
+    "FULL by DESIGN §8's definition (every clause has an unguarded theorem; the former gaps C10-F1 and C10-F2 are repaired in "
+    "/repo and their witnesses are regression examples in Lean and in the corpus). "
+    "Lean theorems about a state-carrying model of the _timer loop (the in-memory handler state "
     "incl. the series' `started` is carried from iteration to iteration; whether an iteration invokes the function is derived "
     "from it), for ALL configurations (interval/sharp/idle/initial_delay present or absent, backoff, errors mode, retries, "
     "timeout), all iteration records (any duration, any patch round trip), all result scripts and all timings of object "
@@ -63,8 +62,10 @@ LEVEL_TEXT = (
     "(UNGUARDED, idle_reset_time derived from an arbitrary history of processed events and any creation time of the memory: no "
     "run within idle after any essential change stamped at the instant its cycle reaches process_spawning_cause; the first "
     "event of a memory counts when the object differs from its last-handled essence — a restart on an unchanged handled object "
-    "is not a change). The model is hand-written; its branch chain, state-reset condition, idle-reset condition "
-    "(processing._detect_causes), loop conditions, sleep arithmetic and statement skeleton are re-extracted from the AST on "
+    "is not a change) and idle_law_recv (UNGUARDED: no run within idle after the instant an essential change is DETECTED, "
+    "before any on.event handler of the cycle runs: idle_reset_time is stamped there and again in process_spawning_cause). "
+    "The model is hand-written; its branch chain, state-reset condition, idle-reset condition "
+    "(processing._detect_causes) and the two stamp sites of idle_reset_time, loop conditions, sleep arithmetic and statement skeleton are re-extracted from the AST on "
     "every run and proved equal (T); every loop iteration of seeded closed-loop simulations is compared with it (S): "
     "invocation / pre-check decision, retry kwarg, state after the run incl. started, next start (tick-exact), carried state "
     "at the next iteration, the real cause.reset of every event and every read of idle_reset_time against the derived view. "
@@ -75,11 +76,11 @@ TIE = ("T: post-run branch chain + state-reset condition + idle-reset condition 
 THEOREMS = [("Kopf.Props.C10", "Kopf.C10." + n) for n in [
     "no_overlap_step", "no_overlap", "invoked_unless_failed", "failed_is_last", "failed_run_marks_state",
     "success_marks_state", "interval_law_step", "interval_law", "sharp_grid_step", "sharp_grid", "error_delay_step",
-    "error_delay_law", "initial_delay_law", "idle_law", "idle_law_full", "idle_law_partial", "idle_recv_clause_false_witness",
+    "error_delay_law", "initial_delay_law", "idle_law", "idle_law_full", "idle_law_recv",
     "idle_only_law", "one_shot",
     "invoked_unless_failed_no_timeout", "timeout_ends_series", "first_attempt_not_timed_out"]]
 TIE_THEOREMS = [("Kopf.Tie.C10", "Kopf.C10.Tie." + n) for n in [
-    "post_eq", "reset_top_eq", "at_top_eq", "restart_clock_eq", "at_start_eq", "forever_stopped_eq", "reset_cond_eq", "resets_idle_eq", "idle_cond_eq", "idle_delay_eq", "poll_cond_eq", "poll_delay_eq", "shape_eq", "stopper_guards_eq", "idle_step_eq", "poll_step_eq"]]
+    "post_eq", "reset_top_eq", "at_top_eq", "restart_clock_eq", "at_start_eq", "forever_stopped_eq", "reset_cond_eq", "resets_idle_eq", "stamp_sites_eq", "idle_cond_eq", "idle_delay_eq", "poll_cond_eq", "poll_delay_eq", "shape_eq", "stopper_guards_eq", "idle_step_eq", "poll_step_eq"]]
 RULE = ("seeded scenarios: 1-2 timers on 1-2 objects, all 16 presence combinations of interval/sharp/idle/initial_delay "
         "(stratified), scripted results ok/ok+result/ok+patch/temporary(delay)/arbitrary/permanent with function durations "
         "0, <, =-1tick, =, =+1tick, > the interval (1.5x, 2x, 2.5x), backoff/retries/errors/timeout options (timeout below, at, above "
@@ -95,6 +96,9 @@ TRUSTED = ["harness/sim (virtual-time loop, fake API server with 1/64 s latency,
            "logging property on DaemonsMemory.idle_reset_time",
            "pyextract vocabulary for daemons._timer (statement recognisers, arithmetic atoms)"]
 ASSUMPTIONS = ["interval > 0 and idle > 0 where present (interval = 0 divides by zero in the sharp branch / spins otherwise)",
+               "a change counts as received when its cycle has passed `_detect_causes` (`Ev.recv`); the oracle takes the start of "
+               "the cycle: the two coincide unless `@kopf.index` handlers or the start-up index wait take time (no index "
+               "handlers are generated)",
                "the stopper is not modelled: it only truncates a run sequence (every loop condition carries it: stopper_guards_eq)",
                "initial_delay is a number (callables are evaluated by the same line of code)"]
 
@@ -224,7 +228,7 @@ RESET_VOCAB = {
 }
 
 
-def _extract_reset(ctx: Ctx) -> str:
+def _extract_reset(ctx: Ctx) -> tuple[str, list[str]]:
     """`processing._detect_causes`: the `reset=` argument of the spawning cause, the bookkeeping of the last-seen
     essence it reads, and `process_spawning_cause`'s write of idle_reset_time under `cause.reset`."""
     tree = pyextract.parse_file(ctx.repo / "kopf/_core/reactor/processing.py")
@@ -251,18 +255,32 @@ def _extract_reset(ctx: Ctx) -> str:
     if "reset" not in kws:
         raise ExtractError("_detect_causes: the spawning cause gets no `reset=`")
     cond = pyextract.BoolTranslator(RESET_VOCAB).tr(kws["reset"])
+    stamp = "memory.daemons_memory.idle_reset_time = asyncio.get_running_loop().time()"
     psc = pyextract.find_def(tree, "process_spawning_cause")
     ok = [st for st in psc.body if isinstance(st, ast.If) and pyextract.norm(st.test) == "cause.reset" and not st.orelse
-          and len(st.body) == 1
-          and pyextract.norm(st.body[0]) == "memory.daemons_memory.idle_reset_time = asyncio.get_running_loop().time()"]
+          and len(st.body) == 1 and pyextract.norm(st.body[0]) == stamp]
+    # the early stamp: in process_resource_causes, after `_detect_causes(...)` and before any handler of the cycle is invoked
+    prc = pyextract.find_def(tree, "process_resource_causes")
+    body = pyextract.body_without_docstring(prc)
+    texts = [pyextract.norm(st) for st in body]
+    early = [k for k, st in enumerate(body) if isinstance(st, ast.If) and not st.orelse and len(st.body) == 1
+             and pyextract.norm(st.test) == "spawning_cause is not None and spawning_cause.reset" and pyextract.norm(st.body[0]) == stamp]
+    detect = [k for k, t in enumerate(texts) if "_detect_causes(" in t]
+    first_handlers = [k for k, st in enumerate(body) if any(
+        isinstance(n, ast.Await) for n in ast.walk(st))]
     writes = [n for n in ast.walk(tree) if isinstance(n, ast.Assign) and "idle_reset_time" in pyextract.norm(n.targets[0])]
-    if len(ok) != 1 or len(writes) != 1:
-        raise ExtractError("processing: idle_reset_time is no longer written exactly once, under `if cause.reset:`")
-    return cond
+    sites = []
+    if len(early) == 1 and len(detect) == 1 and detect[0] < early[0] and (not first_handlers or early[0] < min(first_handlers)):
+        sites.append("StampSite.afterDetect")
+    if len(ok) == 1:
+        sites.append("StampSite.spawningCause")
+    if len(writes) != len(sites):
+        raise ExtractError("processing: idle_reset_time is written at a place, or under a condition, outside the two known stamp sites")
+    return cond, sites
 
 
 def extract(ctx: Ctx) -> None:
-    reset_cond = _extract_reset(ctx)
+    reset_cond, stamp_sites = _extract_reset(ctx)
     tree = pyextract.parse_file(ctx.repo / "kopf/_core/engines/daemons.py")
     fn = pyextract.find_def(tree, "_timer")
     body = pyextract.body_without_docstring(fn)
@@ -375,6 +393,7 @@ def extract(ctx: Ctx) -> None:
     out += f"def marksForeverStopped (a : TopAtoms) : Bool := {forever}\n\n"
     out += "/-- processing._detect_causes: the event resets idling -/\n"
     out += f"def resetCond (a : ResetAtoms) : Bool := {reset_cond}\n\n"
+    out += f"def stampSites : List StampSite := [{', '.join(stamp_sites)}]\n\n"
     out += f"def idleCond (a : GateAtoms) : Bool := {idle_cond}\n\n"
     out += f"def idleDelay (a : GateAtoms) : Int := {idle_delay}\n\n"
     out += f"def pollCond (a : GateAtoms) : Bool := {poll_cond}\n\n"
@@ -396,6 +415,7 @@ class Probe:
         self.instances: list[dict] = []
         self.writes: list[dict] = []
         self.events: list[dict] = []
+        self.detects: list[dict] = []
         self._mems: list[Any] = []
 
     @contextlib.contextmanager
@@ -408,6 +428,24 @@ class Probe:
         from kopf._core.reactor import processing
         orig_timer, orig_exec, orig_pac = daemons._timer, execution.execute_handlers_once, application.patch_and_check
         orig_psc = processing.process_spawning_cause
+        orig_det = processing._detect_causes
+
+        def _detect_causes(**kw: Any) -> Any:
+            out = orig_det(**kw)
+            try:
+                sc_ = out.spawning_cause
+                if sc_ is not None:
+                    from ..sim import observe as _obs_mod
+                    cyc = _obs_mod._cycle.get()
+                    body = json.loads(json.dumps(dict(kw["body"]), default=repr))
+                    ess, lh = _norms(body)
+                    probe.detects.append({"uid": body.get("metadata", {}).get("uid"), "inc": runner._incarnation.get(), "t": now(),
+                                          "cyc": None if cyc is None else cyc.get("i"), "reset": bool(sc_.reset), "ess_norm": ess,
+                                          "lh_norm": lh, "mem": id(kw["memory"].daemons_memory)})
+                    probe._mems.append(kw["memory"].daemons_memory)
+            except Exception as e:  # noqa: BLE001
+                probe.detects.append({"error": repr(e)})
+            return out
 
         async def process_spawning_cause(**kw: Any) -> Any:
             cause, memory = kw["cause"], kw["memory"]
@@ -510,6 +548,7 @@ class Probe:
             probe._mems.append(self)
 
         processing.process_spawning_cause = process_spawning_cause  # type: ignore[assignment]
+        processing._detect_causes = _detect_causes  # type: ignore[assignment]
         daemons._timer = _timer  # type: ignore[assignment]
         execution.execute_handlers_once = execute_handlers_once  # type: ignore[assignment]
         application.patch_and_check = patch_and_check  # type: ignore[assignment]
@@ -518,6 +557,7 @@ class Probe:
             yield
         finally:
             processing.process_spawning_cause = orig_psc  # type: ignore[assignment]
+            processing._detect_causes = orig_det  # type: ignore[assignment]
             daemons._timer = orig_timer  # type: ignore[assignment]
             execution.execute_handlers_once = orig_exec  # type: ignore[assignment]
             application.patch_and_check = orig_pac  # type: ignore[assignment]
@@ -527,7 +567,7 @@ class Probe:
         insts = []
         for i in self.instances:
             insts.append({k: v for k, v in i.items() if k not in ("busy",)})
-        return {"instances": insts, "writes": self.writes, "events": self.events}
+        return {"instances": insts, "writes": self.writes, "events": self.events, "detects": self.detects}
 
 
 def _essence(body: dict) -> Any:
@@ -905,7 +945,7 @@ def oracle(ctx: Ctx, sc: dict, tr: dict, stats: dict | None = None) -> None:
 
         def reset_time(c: dict) -> float | None:
             """when the cycle of this event reached process_spawning_cause (probe), None if it never did"""
-            ts = [e["t"] for e in tr["c10"].get("events", []) if e.get("cyc") == c["i"]]
+            ts = [e["t"] for e in tr["c10"].get("detects", []) if e.get("cyc") == c["i"] and e.get("reset")]
             return min(ts) if ts else None
 
         def last_cycle_upto(t: float) -> float | None:
@@ -930,7 +970,7 @@ def oracle(ctx: Ctx, sc: dict, tr: dict, stats: dict | None = None) -> None:
                     rt_ = reset_time(seen[-1])
                     if rt_ is None or (rt_ >= b["t"] and (seen[-1].get("t1") is None or b["t"] <= seen[-1]["t1"])):
                         # (rt_ None: the cycle was cancelled inside its on.event handlers — operator stopping — and never stamped)
-                        # the change was received, but its cycle had not reached process_spawning_cause yet (open finding C10-F2)
+                        # the change was received, but nothing had stamped idle_reset_time for it yet (the shape of the fixed finding C10-F2)
                         ctx.oracle_fail(what + f" (its processing cycle reset idling only at {rt_})",
                                         {"scenario": sc, "uid": uid, "id": hid, "call": b, "change": seen[-1]["t0"]}, F2_SIG)
                     elif seen[-1].get("lh_same"):
@@ -1153,24 +1193,31 @@ def abstract_resets(sc: dict, tr: dict) -> list[dict]:
     table: dict[str, int] = {}
     history: dict[int, list[list]] = {}
     items = []
+    psc_at = {e.get("cyc"): e["t"] for e in tr["c10"]["events"] if "error" not in e and e.get("cyc") is not None}
     for ev in tr["c10"]["events"]:
+        if "error" in ev:
+            items.append({"what": "crashed", "inst": ev})
+    for ev in tr["c10"].get("detects", []):
         if "error" in ev:
             items.append({"what": "crashed", "inst": ev})
             continue
         e = _intern(table, ev["ess_norm"])
         lh = None if ev["lh_norm"] is None else _intern(table, ev["lh_norm"])
         hist = history.setdefault(ev["mem"], [])
-        seen = hist[-1][1] if hist else None
-        hist.append([ticks(ev["t"]), e, lh])
+        seen = hist[-1][2] if hist else None
+        # [recv, t, ess, lh]: the stamp after the detection and the one in process_spawning_cause (same instant if the
+        # cycle never got there)
+        hist.append([ticks(ev["t"]), ticks(psc_at.get(ev.get("cyc"), ev["t"])), e, lh])
         items.append({"what": "reset", "req": ["C10.reset", lh, seen, e], "impl": ev["reset"],
                       "inst": {"uid": ev["uid"], "t": ev["t"]}, "obs_ok": True,
                       "shape": {"gap": "reset", "lh": "none" if lh is None else "same" if lh == e else "differs",
-                                "seen": "first" if seen is None else "same" if seen == e else "differs"}})
+                                "seen": "first" if seen is None else "same" if seen == e else "differs",
+                                "late": psc_at.get(ev.get("cyc"), ev["t"]) > ev["t"]}})
     for inst in tr["c10"]["instances"]:
         evs = history.get(inst["mem"], [])
         if inst["mem"] not in created:
             continue
-        busy = {e[0] for e in evs}
+        busy = {e[0] for e in evs} | {e[1] for e in evs}
         reads: dict[int, int] = {}
         tied = 0
         for t, v in inst["reads"]:
